@@ -198,9 +198,9 @@ def cone_aabb(cone2origin, radius, height):
         Maximum coordinates.
     """
     pa = cone2origin[:3, 3]
-    pb = cone2origin[:3, 3] + height * cone2origin[:3, 2]
-    a = pb - pa
-    e = np.sqrt(np.maximum(0.0, 1.0 - a * a / (height * height)))
+    axis = cone2origin[:3, 2]
+    pb = pa + height * axis
+    e = np.sqrt(np.maximum(0.0, 1.0 - axis * axis))
     return np.minimum(pa - e * radius, pb), np.maximum(pa + e * radius, pb)
 
 
